@@ -6,7 +6,6 @@ KNOWN-FINDING).  Avoided draws are counted per id in evidence ('avoided')."""
 OPEN = {
     'dup-pvd-udf': 'duplicate_pvd() on a UDF image shifts the bridge layout: the image cannot be reopened',
     'dup-pvd-eltorito': 'duplicate_pvd() together with El Torito puts the boot record at sector 18: the image cannot be reopened',
-    'udf-symlink-joliet-dup': 'add_symlink(udf-only, joliet_path=...) adds the Joliet entry twice',
     'rr-moved-stale': 'after the relocation directory was removed a new relocation re-uses the detached record',
     'reloc-after-reopen': 'after a reopen _rr_moved_record points at the last relocated directory instead of RR_MOVED: a new relocation lands in the wrong directory (rm_directory then raises "Could not find parent in its own parent!")',
     'hidden-bootfile': 'boot file whose ISO9660 name was unlinked: other names read sector-padded length after reopen; rm_eltorito leaves a dangling inode',
